@@ -36,6 +36,9 @@ pub fn into_stream_$NAME<Source: VSource, I: ZvtSerializer + Sync + Send>(input:
                 &&& forall|i: nat| i < j ==> (#[trigger] pkt::<$REPLY>(b, i)) is Some
             })
         }),
+//@ tag seq.$NAME.fails_only_for_cause C05
+        final(src).source.reliable() == old(src).source.reliable(),
+        (r is Err && old(src).source.reliable()) ==> fails_for_cause::<$REPLY>(old(src).source.inbox(), (final(__sink).items().len() - old(__sink).items().len()) as nat),
 //@ untag
 //@ fn $FILE | impl Sequence for $NAME | into_stream | bodyonly macro=try_stream yieldctx=src all-loops props=C05,~C06
 //@ loop 0
@@ -46,6 +49,8 @@ pub fn into_stream_$NAME<Source: VSource, I: ZvtSerializer + Sync + Send>(input:
             items0 == old(__sink).items(), stamps0 == old(__sink).stamps(),
             seq_state::<$REPLY, Source>(src, __sink, input.zs_spec(), inbox0, c0, w0, items0, stamps0, (__sink.items().len() - items0.len()) as nat),
             __sink.items().len() >= items0.len(),
+            src.source.reliable() == old(src).source.reliable(),
+            apdu_total(inbox0) matches Some(t0) && Ack::parse_spec(inbox0.take(t0)) is Some,
 //@ tag seq.$NAME.loop_left_only_behind_final_packet C05 C06
         // the reply loop is left normally only behind a final packet: any other way out would end the stream without the
         // final packet AND without an error item
